@@ -53,7 +53,9 @@ def configs():
     out = []
     for mps in (1, 2, None):
         for ign in (False, True):
-            for idle in (0, IDLE):
+            for idle in (0, IDLE, 2.5):
+                if idle == 2.5 and (ign or mps == 1):
+                    continue
                 out.append((mps, ign, idle))
     return out
 
@@ -92,7 +94,7 @@ class World:
         mps, ign, idle = cfg
         self.cfg = cfg
         self.net = stacks.new_net(None, menu=MENU, servers=(stacks.H1,))
-        self.net.slow_by = SLOW
+        self.net.slow_by = SLOW if idle != 2.5 else 2
         ops.preload(self.net)
         self.obj = stacks.build("pooled", self.net, max_pool_size=mps, ignore_exc=ign,
                                 pool_idle_timeout=idle, default_noreply=False, connect_timeout=3, timeout=7)
@@ -118,11 +120,36 @@ class World:
             true_age = now - self.released_at.get(id(c), now)
             impl_age = (now - c._last_used) if self.cfg[2] else 0
             out.append((c.sock is not None and c.sock.state == "connected",
-                        min(true_age, IDLE + 2), min(impl_age, IDLE + 2)))
+                        min(true_age, (self.cfg[2] or IDLE) + 2), min(impl_age, (self.cfg[2] or IDLE) + 2)))
         return out
 
     def canon(self):
-        return (tuple(sorted(self.idle_entries())), len(self.pool._used_objs))
+        # the order of the idle list matters: the pool hands out the oldest first
+        return (tuple(self.idle_entries()), len(self.pool._used_objs))
+
+    def overlap(self, dt):
+        """Two overlapping calls (as two threads would make them), sequentially: a connection is held
+        while another call runs on a second connection; the held one is released `dt` seconds later.
+        Leaves two idle connections of different idle age (the older one first)."""
+        pool, net = self.pool, self.net
+        self.ncall += 1
+        net.call = self.ncall
+        self.checked = []
+        held = pool.get()
+        try:
+            held.get("a")
+            self.obj.get("b")
+        except Exception:
+            pass
+        for c in self.checked:
+            if c is not held:
+                self.released_at[id(c)] = net.clock.now
+        net.clock.advance(dt)
+        pool.release(held)
+        self.released_at[id(held)] = net.clock.now
+        for c in self.checked:
+            c.verif_raised = 0
+        self.bad = []
 
     def advance(self, dt):
         self.net.clock.advance(dt)
@@ -172,24 +199,25 @@ class World:
             if e[2].endswith("_on_closed"):
                 bad.append(("io-on-closed-socket", f"{op.label}: {e[2]} on socket {e[3]}"))
         # reference model of reuse / expiry
-        usable = [c for c, (open_, true_age, impl_age) in before if open_ and (idle == 0 or true_age <= idle)]
-        expired = [c for c, (open_, true_age, impl_age) in before if idle and true_age > idle]
         connected = [e for e in events if e[2] in ("socket", "connect")]
-        # the pool hands out the oldest idle connection first
-        first_usable_is_head = before and usable and before[0][0] is usable[0]
-        if first_usable_is_head and connected:
-            bad.append(("healthy-connection-not-reused",
-                        f"{op.label} opened a new connection although an idle one aged "
-                        f"{before[0][1][1]}s (timeout {idle}) was available"))
-        for c, (open_, true_age, impl_age) in before:
-            if idle and true_age > idle and c is before[0][0]:
-                # the head of the idle list is expired: it must be closed and gone
+        # reference pool: scan the idle list from the oldest; close every expired entry met on the way; the
+        # first entry that is not expired is handed out; only if there is none a new connection is opened
+        first_ok = None
+        for j, (c, (open_, true_age, impl_age)) in enumerate(before):
+            if idle and true_age > idle:
                 if c in pool._free_objs or c in pool._used_objs:
                     bad.append(("expired-connection-reused",
-                                f"{op.label} reused a connection idle for {true_age}s (timeout {idle})"))
+                                f"{op.label} reused (or kept) a connection idle for {true_age}s (timeout {idle})"))
                 elif c.sock is not None and c.sock.state != "closed":
                     bad.append(("expired-connection-not-closed",
                                 f"{op.label}: connection idle for {true_age}s was dropped from the pool but not closed"))
+            else:
+                first_ok = (c, open_, true_age)
+                break
+        if first_ok is not None and first_ok[1] and connected:
+            bad.append(("healthy-connection-not-reused",
+                        f"{op.label} opened a new connection although an idle one aged "
+                        f"{first_ok[2]}s (timeout {idle}) was available"))
         # quit is a deliberate discard
         if op.name == "quit":
             for c in self.checked:
@@ -205,6 +233,8 @@ def build(cfg, alpha, hist):
     for ev in hist:
         if ev[0] == "adv":
             w.advance(ev[1])
+        elif ev[0] == "overlap":
+            w.overlap(ev[1])
         else:
             w.step(alpha[ev[1]], ev[2])
     return w
@@ -246,7 +276,11 @@ def _worker(job, chk):
             fixpoint = False
             continue
         depth_reached = max(depth_reached, len(hist))
-        events = [("adv", d) for d in (ADVANCES if cfg[2] else ())]
+        idle = cfg[2]
+        advs = () if not idle else (ADVANCES if idle == IDLE else (1, 2.2, 2.5, 3))
+        events = [("adv", d) for d in advs]
+        if idle and cfg[0] != 1 and len(hist) < 3:
+            events += [("overlap", d) for d in ((3, IDLE - 1) if idle == IDLE else (1, 2.2))]
         for oi in range(len(alpha)):
             for plan in plans_for(cfg, alpha, list(hist), oi, bound):
                 events.append(("op", oi, plan))
@@ -256,6 +290,9 @@ def _worker(job, chk):
             if ev[0] == "adv":
                 w.advance(ev[1])
                 label = ("adv", ev[1])
+            elif ev[0] == "overlap":
+                w.overlap(ev[1])
+                label = ("overlap", ev[1])
             else:
                 ch, res, evs = w.step(alpha[ev[1]], ev[2])
                 label = (alpha[ev[1]].name, connoracle.devsig(ch))
@@ -265,7 +302,7 @@ def _worker(job, chk):
                     chk.violation(sig, text + f" [config max_pool_size={cfg[0]} ignore_exc={cfg[1]} "
                                   f"pool_idle_timeout={cfg[2]}; history {describe(alpha, hist)}; plan {ch.plan()}]",
                                   {"cfg": list(cfg), "tier": tier, "history": [list(h) for h in hist], "event": list(ev)})
-                if ch.labels or any(e[0] == "adv" for e in hist):
+                if ch.labels or any(e[0] in ("adv", "overlap") for e in hist):
                     chk.outcome((cfg, src, label, w.canon()))
             transitions += 1
             chk.add()
@@ -292,6 +329,8 @@ def describe(alpha, hist):
     for ev in hist:
         if ev[0] == "adv":
             out.append(f"advance {ev[1]}s")
+        elif ev[0] == "overlap":
+            out.append(f"two overlapping calls, the second connection released {ev[1]}s later")
         else:
             out.append(f"{alpha[ev[1]].label} choices={list(ev[2])}")
     return out
